@@ -38,17 +38,12 @@ def _apply(root, patch):
     return tmp
 
 
-def _violations(prop, root):
+def run_variant(job):
+    root, d, expect_violation = job
     from .__main__ import run_property
     from .core import known_match, load_known_findings
+    from . import astutil
 
-    model = Model.from_dir(root)
-    ctx = run_property(prop, model, "quick")
-    known = load_known_findings()
-    return [f for f in ctx.violations() if known_match(prop, f, known) is None]
-
-
-def run_variant(root, d, expect_violation):
     patch = os.path.join(d, "patch.diff")
     meta_p = os.path.join(d, "meta.json")
     if not os.path.exists(patch) or not os.path.exists(meta_p):
@@ -59,13 +54,17 @@ def run_variant(root, d, expect_violation):
     if tmp is None:
         return (d, "skipped", "patch does not apply to the current tree")
     try:
+        known = load_known_findings()
+        model = Model.from_dir(tmp)
         for prop in props:
             if not os.path.exists(os.path.join(VERIF, "dropstat", "props", prop.lower() + ".py")):
                 continue
+            astutil._VIEWS.clear()
             try:
-                v = _violations(prop, tmp)
+                ctx = run_property(prop, model, "quick")
+                v = [f for f in ctx.violations() if known_match(prop, f, known) is None]
             except AnalysisError as exc:
-                return (d, "analysis-error", f"{prop}: {exc}")
+                return (d, "analysis-error" if expect_violation else "FALSE-ALARM", f"{prop}: analysis error: {exc}")
             if expect_violation and not v:
                 return (d, "MISSED", f"{prop}: no violation reported")
             if not expect_violation and v:
@@ -92,13 +91,15 @@ def main(args) -> int:
     benign = sorted(glob.glob(os.path.join(VERIF, "benign", "*")))
     results = []
     if os.path.isdir(os.path.join(root, "droplets")):
-        with ThreadPoolExecutor(max(1, args.jobs)) as ex:
-            results += list(ex.map(lambda d: run_variant(root, d, True), seeded))
-            results += list(ex.map(lambda d: run_variant(root, d, False), benign))
+        from concurrent.futures import ProcessPoolExecutor
+
+        jobs = [(root, d, True) for d in seeded] + [(root, d, False) for d in benign]
+        with ProcessPoolExecutor(max(1, min(args.jobs, os.cpu_count() or 1))) as ex:
+            results += list(ex.map(run_variant, jobs))
     counts = {}
     for d, status, why in results:
         counts[status] = counts.get(status, 0) + 1
-        if status in ("MISSED", "FALSE-ALARM"):
+        if status in ("MISSED", "FALSE-ALARM", "analysis-error"):
             problems.append(f"{os.path.basename(d)}: {status} {why}")
         if not args.quiet or status not in ("ok",):
             print(f"selftest {os.path.relpath(d, VERIF)}: {status} {why}")
